@@ -258,11 +258,14 @@ def build_harness(name, sources, extra_flags=(), sanitize=True, cxx=None, libs=(
         raise InfraError("harness build failed (%s):\n%s" % (name, (out + err)[-4000:]))
     os.replace(exe + ".tmp%d" % os.getpid(), exe)
     log("built harness %s in %.1fs" % (name, time.time() - t0))
-    # drop stale builds of the same harness
+    # drop stale builds of the same harness (only old ones: a concurrent check against another tree may be using a sibling)
+    now = time.time()
     for fn in os.listdir(BUILD):
-        if fn.startswith(name + "-") and os.path.join(BUILD, fn) != exe and ".tmp" not in fn:
+        p = os.path.join(BUILD, fn)
+        if fn.startswith(name + "-") and p != exe and ".tmp" not in fn:
             try:
-                os.unlink(os.path.join(BUILD, fn))
+                if now - os.path.getmtime(p) > 3 * 3600:
+                    os.unlink(p)
             except OSError:
                 pass
     return exe
